@@ -515,7 +515,7 @@ func (e *Engine) frameGoal(h0, h1 *Term, class string, locs []Loc, a0 *Term) *Te
 		}
 		return tb.Eq(h0, h1)
 	}
-	conds := []*Term{tb.Lt(r, a0), tb.Ge(r, tb.Int(0))}
+	conds := []*Term{tb.Lt(r, a0), tb.Gt(r, tb.Int(0))}
 	var rowGoals []*Term
 	for _, l := range mine {
 		if l.Idx == nil {
